@@ -229,6 +229,8 @@ def run(ctx):
             ctx.ob("R13.1", "create_stream:pooled-session-returned", bool(reuse), "", "the Some edge returns the session taken from the pool" if reuse else "the session found in the pool is not what create_stream returns")
         elif not none_e:
             ctx.missing("R13.1", "match on get_idle_session in create_stream")
+    from . import C01 as _C01n
+    _C01n.r3_r4_recv_buffer(ctx)    # a healthy session survives any legal frame: nothing caps the receive buffer below the largest one (a capped read returns 0 bytes, which is read as the peer closing)
     from . import C02 as _C02n, C14 as _C14n
     _C02n.r6_no_alert_for_one_stream(ctx)     # one unanswerable stream does not cost the client its (pooled) session
     _C14n.r5_every_tick_probes(ctx)           # the monitor of a healthy pooled session keeps probing whatever else the session is doing: it is not closed for a stale reference instant
